@@ -178,11 +178,11 @@ type vkAAAAShape struct {
 	Answer []string
 	// SOA in authority: ttl, minimum (ttl<0 => none)
 	SOATTL, SOAMin int
-	EDE            int  // -1 none
+	EDE            int   // -1 none
 	EDEFirst       []int // further EDE options placed BEFORE EDE in the OPT
 	CookieFirst    bool  // a COOKIE option placed before any EDE
-	OPT            bool // attach OPT even without EDE
-	CachedMark     bool // request-tree cached-failure mark around the write
+	OPT            bool  // attach OPT even without EDE
+	CachedMark     bool  // request-tree cached-failure mark around the write
 	LocalMark      string
 }
 
@@ -315,9 +315,11 @@ type vkTransport struct {
 	msgs     []*dns.Msg
 }
 
-func (t *vkTransport) LocalAddr() net.Addr         { return &net.UDPAddr{IP: net.IPv4(192, 0, 2, 53), Port: 53} }
-func (t *vkTransport) RemoteAddr() net.Addr        { return t.remote }
-func (t *vkTransport) WriteMsg(m *dns.Msg) error   { t.msgs = append(t.msgs, m); return nil }
+func (t *vkTransport) LocalAddr() net.Addr {
+	return &net.UDPAddr{IP: net.IPv4(192, 0, 2, 53), Port: 53}
+}
+func (t *vkTransport) RemoteAddr() net.Addr      { return t.remote }
+func (t *vkTransport) WriteMsg(m *dns.Msg) error { t.msgs = append(t.msgs, m); return nil }
 func (t *vkTransport) Write(b []byte) (int, error) {
 	m := new(dns.Msg)
 	if err := m.Unpack(b); err == nil {
@@ -555,9 +557,9 @@ func vkTerminal(qname string, answer []dns.RR) string {
 }
 
 type vkExp struct {
-	addr  string // 16-byte key
-	aTTL  uint32
-	text  string
+	addr string // 16-byte key
+	aTTL uint32
+	text string
 }
 
 // vkJudge returns "" or the violated clause; label is the outcome label.
